@@ -206,7 +206,7 @@ partial def search (cx : Ctx) (items : Array Item) (pos : Nat) (s : State) (fi :
   return false
 
 /-- the property, evaluated directly on what the implementation showed for this script -/
-def obsSpec (cfg : Cfg) (items : List Item) (frames : List String) (final : Option Snap) : String :=
+def obsSpec (cfg : Cfg) (items : List Item) (frames : List String) (snaps : List Snap) (final : Option Snap) : String :=
   let parsed := frames.map fun f => match f.splitOn ":" with
     | [w, id, info] => (w, id, info)
     | _ => ("?", "-", "-")
@@ -218,6 +218,7 @@ def obsSpec (cfg : Cfg) (items : List Item) (frames : List String) (final : Opti
   -- nothing of an operation before the ack
   let beforeAck := parsed.takeWhile (fun f => f.1 != ackW)
   if beforeAck.any (fun f => opFrame f.1) then "violates:operation-frame-before-ack" else
+  if snaps.any (fun sn => !sn.ops.isEmpty) && !(parsed.any (fun f => f.1 == ackW)) then "violates:operation-executed-before-ack" else
   let starts := items.filterMap fun
     | .env (.clientSend (.msg w id _ _)) _ => if cfg.proto.toMessage w == some .start then some (if id.isEmpty then "-" else id) else none
     | _ => none
@@ -230,6 +231,44 @@ def obsSpec (cfg : Cfg) (items : List Item) (frames : List String) (final : Opti
   match bad with
   | some b => b
   | none =>
+    -- the close callback never fires twice; once it has fired every operation context is cancelled
+    if snaps.any (fun sn => sn.cf.length > 1) then "violates:close-callback-fired-twice"
+    else if snaps.any (fun sn => !sn.cf.isEmpty && sn.ops.any (fun o => !o.2.1)) then
+      "violates:operation-context-not-cancelled-after-close"
+    else if snaps.any (fun sn => sn.dup) then "violates:operation-executed-twice"
+    else
+    let tagId0 := items.filterMap fun
+      | .env (.clientSend (.msg w id .sub tag)) _ =>
+        if cfg.proto.toMessage w == some .start then some (tag, id) else none
+      | _ => none
+    -- an id names one running operation
+    if snaps.any (fun sn =>
+        let liveIds := sn.ops.filterMap fun (tag, _, fin) => if fin then none else tagId0.lookup tag
+        liveIds.length != liveIds.eraseDups.length) then "violates:two-operations-running-under-one-id"
+    else
+    -- an operation whose resolver has finished on an open socket has been answered by error and/or complete
+    let tagId := items.filterMap fun
+      | .env (.clientSend (.msg w id .sub tag)) _ =>
+        if cfg.proto.toMessage w == some .start then some (tag, if id.isEmpty then "-" else id) else none
+      | _ => none
+    let unterminated := snaps.getLast?.bind fun mid =>
+      if !mid.cf.isEmpty || mid.cc != "open" then none else
+      mid.ops.findSome? fun (tag, _, fin) =>
+        if !fin then none else
+        match tagId.lookup tag with
+        | none => none
+        | some id =>
+          let mine := parsed.filter (fun f => f.2.1 == id)
+          let terminated := mine.any fun f =>
+            (f.1 == complW) || (f.1 == errW && (f.2.2.splitOn "+").any (fun p => p == s!"E{tag}" || p == s!"P{tag}"))
+          -- a complete frame cannot be attributed to a tag: require at least as many terminations as finished operations
+          let nFin := (mid.ops.filter fun (t, _, f) => f && tagId.lookup t == some id).length
+          let nTerm := (mine.filter fun f => f.1 == complW).length +
+            (mine.filter fun f => f.1 == errW).length
+          if terminated && nTerm ≥ nFin then none else some s!"violates:finished-operation-without-error-or-complete:id={id}"
+    match unterminated with
+    | some u => u
+    | none =>
     match final with
     | some z =>
       if z.cf.length != 1 then s!"violates:close-callback-count={z.cf.length}"
@@ -255,7 +294,7 @@ def step (line : String) : String :=
       let tickWires := cfg.ticks.filterMap fun t => (cfg.proto.fromMessage t).join
       let cx : Ctx := { cfg, frames := frames.toArray, tickWires }
       let (ok, memo) := (search cx items.toArray 0 State.initial 0 false false false).run {}
-      let spec := obsSpec cfg items frames tail.getLast?
+      let spec := obsSpec cfg items frames (qs ++ tail.take 1) tail.getLast?
       let verdict := if ok then "member" else
         s!"nonmember item={memo.bestItem} frames={memo.bestFrames}{if memo.fuel == 0 then " fuel-exhausted" else ""}"
       s!"{verdict} spec={spec}"
